@@ -2,3 +2,15 @@ claim("C01", "runtime invariant monitor + hook step counter over bounded-exhaust
       "Every generated input (all token sequences up to the bound, random token and byte strings, corpus mutants, 40 pathological shapes up to 64 KiB) is parsed by the real ParseSourceCode in a child process; monitors check no escaped panic / process death, tree-xor-error, completeness of every error-free tree, full consumption, and a linear bound on hook-counted steps. Held-on-what-was-executed, exhaustive only up to the stated token bound.",
       "Trusts the Go runtime to turn memory faults into panics/fatal errors, the hook placement (every loop body and recursive entry of scanner.go/parser.go) for the step count, and the reference tokenizer only for the non-triviality count.",
       "5/C01")
+claim("C02", "reference-model monitor: independent tokenizer + Pratt parser and a printer whose trees are known by construction, compared on exhaustive/sampled token sequences",
+      "The real parser's tree (canonical form through exported fields) is compared with the tree the reference grammar determines, and accept/reject outcomes are compared, on every token sequence up to the bound under three separator policies, all 19^3 operator triples, all prefix/binary/postfix combinations, every lexeme pair in 16 contexts, and random programs whose tree is known by construction. Held on the executed inputs; exhaustive only up to the stated bounds.",
+      "Trusts the reference grammar as my reading of the statement; open constructs are only compared when accepted; the printer-by-construction cases do not depend on the reference parser.",
+      "5/C02")
+claim("C14", "invariant monitor on the raw scanner API + exhaustive class sweep + reference tokenizer + layout metamorphism",
+      "Drives CreateScanner/Scan directly on hostile byte strings (tiling, progress, trivia), compares the four character-class predicates with independent tables on all 1,114,112 code points, compares token kinds/extents/line-break flags with a longest-match reference tokenizer on exhaustive lexeme concatenations x 8 separators, and re-lays-out accepted programs with random legal white space expecting the same tree.",
+      "Trusts perl's Unicode database (via tools/gen_es5_ref.pl) for the ES5 tables and the reference tokenizer for what counts as one token; U+200B/U+180E and undefined escapes are skipped and counted.",
+      "5/C14")
+claim("C15", "invariant monitor over every node/diagnostic + direct line/column count as oracle",
+      "For every accepted input every node's range is checked for bounds, nesting and order and its own text is re-parsed to the same subtree; for every rejected input the error string and every diagnostic are checked against a direct count of line-break units; the offset->line/column helpers are compared with the direct count at every offset of all short texts over the six line-break forms.",
+      "Trusts the direct count (15 lines) as the meaning of line/column; re-parse of member names is excluded.",
+      "5/C15")
